@@ -17,8 +17,11 @@ func VerifC12Blocktime() {
 	limit := verifParam("alloc", 1<<16)
 	verifAllocLimit(int64(limit))
 	data := verifBytes("file", n)
-	if n >= len(magic)+32 {
-		capField := binary.LittleEndian.Uint64(data[len(magic)+24:])
+	if n > len(magic)+24 {
+		// unmarshalBinary accepts a short read of the capacity field (missing bytes are zero)
+		var cb [8]byte
+		copy(cb[:], data[len(magic)+24:])
+		capField := binary.LittleEndian.Uint64(cb[:])
 		verifAssume(capField <= uint64(K+2) || capField > uint64(limit/8))
 		magicOK := string(magic) == "blocktimeindex" && verifC12MagicOK(data)
 		// known defect: the capacity field is used for make() before any consistency check
